@@ -585,7 +585,7 @@ def check(src, rep):
     include(rep, src, "C02", {"R1", "R2", "R3"}, "R6", "on a clean HDLC stream the HDLC reader delivers every frame for every chunking")
     include(rep, src, "C05", {"R1", "R2", "R3", "R4"}, "R6", "on a clean P1 stream the P1 reader delivers every readout for every chunking")
     include(rep, src, "C04", {"R1", "R2", "R3", "R4"}, "R6", "every well-formed readout of a clean stream is reported valid (checksum, identification line, characters), so its payload reaches the queue")
-    include(rep, src, "C01", {"R1"}, "R6", "every intact frame of a clean stream is reported valid, so its payload reaches the queue")
+    include(rep, src, "C01", {"R1", "R3"}, "R6", "every intact frame of a clean stream is reported valid (FCS good, length field = number of octets, the length sub-field read with all its 11 bits), so its payload reaches the queue")
     include(rep, src, "C04", {"R5"}, "R6", "every standard identification line is recognised (a readout whose identification line is rejected is never delivered, so nothing of it reaches the queue)")
     rep.floor("loops in data_received", len(all_loops), 3)
 
